@@ -464,3 +464,59 @@ func (c *Cluster) RemoveAll() { os.RemoveAll(c.Dir) }
 
 // DefaultWait is the generous watchdog used for convergence waits.
 const DefaultWait = 120 * time.Second
+
+// Normalize renders a single-statement response as a canonical string;
+// qerr is non-empty when the request or the statement failed.
+func Normalize(resp *Response) (norm string, rows int, qerr string) {
+	if resp.Err != "" {
+		return "", 0, resp.Err
+	}
+	if len(resp.Results) != 1 {
+		return "", 0, fmt.Sprintf("unexpected number of results: %d", len(resp.Results))
+	}
+	res := resp.Results[0]
+	if res.Err != "" {
+		return "", 0, res.Err
+	}
+	var b strings.Builder
+	for _, s := range res.Series {
+		ks := make([]string, 0, len(s.Tags))
+		for k := range s.Tags {
+			ks = append(ks, k)
+		}
+		sortStrings(ks)
+		fmt.Fprintf(&b, "#%s", s.Name)
+		for _, k := range ks {
+			fmt.Fprintf(&b, ",%s=%s", k, s.Tags[k])
+		}
+		fmt.Fprintf(&b, " %v\n", s.Columns)
+		for _, row := range s.Values {
+			rows++
+			for _, v := range row {
+				switch x := v.(type) {
+				case nil:
+					b.WriteString("null ")
+				case json.Number:
+					b.WriteString(x.String() + " ")
+				case string:
+					fmt.Fprintf(&b, "%q ", x)
+				default:
+					fmt.Fprintf(&b, "%v ", x)
+				}
+			}
+			b.WriteString("\n")
+		}
+	}
+	if res.Partial {
+		b.WriteString("PARTIAL\n")
+	}
+	return b.String(), rows, ""
+}
+
+func sortStrings(a []string) {
+	for i := 1; i < len(a); i++ {
+		for j := i; j > 0 && a[j] < a[j-1]; j-- {
+			a[j], a[j-1] = a[j-1], a[j]
+		}
+	}
+}
